@@ -447,6 +447,18 @@ func init() {
 								"what ToSealedWriter ("+sk.name+") wrote does not unseal under the CID it reported")
 						}
 					}
+					// sealed bytes followed by anything are another byte string: no decoder takes it for the token (it would carry
+					// the same signed content under another CID)
+					for ti, tail := range [][]byte{{0x00}, {0xf6}, {0x80}, {0xff}, t.sealed, bytes.Repeat([]byte{0}, 64)} {
+						padded := append(append([]byte{}, t.sealed...), tail...)
+						for _, r := range append(decodeAll(t.typ, nil, padded, nil), decodeAll("generic", nil, padded, nil)...) {
+							rep.Evaluations++
+							if r.err == nil && r.tok != nil {
+								rep.violation(map[string]any{"api": r.name, "token": t.typ + "/" + t.alg, "tail": ti, "tail_bytes": len(tail)}, "rejected", "a token",
+									r.name+" accepts sealed bytes followed by other bytes: a second byte string (and CID) for the same signed content")
+							}
+						}
+					}
 					for _, src := range sourceKinds() {
 						_, idr, er := token.FromSealedReader(src.mk(t.sealed))
 						chk("token.FromSealedReader("+src.name+")", idr, er)
